@@ -228,7 +228,7 @@ Fixpoint member_loop (fuel : nat) (ts : list tok) (acc : list smember) : res (li
   match fuel with
   | O => Fuel
   | S f =>
-    '(m, ts1) <- parse_member f ts ;;
+    '(m, ts1) <- parse_member fuel ts ;;
     match m with
     | None => Ok (rev acc, ts1)
     | Some m => member_loop f ts1 (m :: acc)
@@ -310,7 +310,7 @@ Fixpoint fun_loop (fuel : nat) (ts : list tok) (acc : list func) : res (list fun
   match fuel with
   | O => Fuel
   | S f =>
-    '(fn, ts1) <- parse_fun f ts ;;
+    '(fn, ts1) <- parse_fun fuel ts ;;
     match fn with
     | None => Ok (rev acc, ts1)
     | Some fn => fun_loop f ts1 (fn :: acc)
@@ -381,11 +381,11 @@ Fixpoint segment_loop (fuel : nat) (m : module) (ts : list tok) : res (module * 
     '(t, ts1) <- nx ts ;;
     match t with
     | TPunct PBraceR => ts2 <- expect_p PSemi ts1 ;; Ok (m, ts2)
-    | TKw KConst => '(m', ts2) <- parse_const f m ts1 ;; segment_loop f m' ts2
-    | TKw KEnum => '(m', ts2) <- parse_enum f m ts1 ;; segment_loop f m' ts2
-    | TKw KStruct => '(m', ts2) <- parse_struct f m ts1 ;; segment_loop f m' ts2
-    | TKw KInterface => '(m', ts2) <- parse_iface f m ts1 ;; segment_loop f m' ts2
-    | TKw KKey => '(m', ts2) <- parse_hashkey f m ts1 ;; segment_loop f m' ts2
+    | TKw KConst => '(m', ts2) <- parse_const fuel m ts1 ;; segment_loop f m' ts2
+    | TKw KEnum => '(m', ts2) <- parse_enum fuel m ts1 ;; segment_loop f m' ts2
+    | TKw KStruct => '(m', ts2) <- parse_struct fuel m ts1 ;; segment_loop f m' ts2
+    | TKw KInterface => '(m', ts2) <- parse_iface fuel m ts1 ;; segment_loop f m' ts2
+    | TKw KKey => '(m', ts2) <- parse_hashkey fuel m ts1 ;; segment_loop f m' ts2
     | _ => Err
     end
   end.
@@ -417,7 +417,7 @@ Fixpoint file_loop (fuel : nat) (fl : file) (ts : list tok) : res file :=
         | TStr s => file_loop f {| fl_includes := fl_includes fl ++ [s]; fl_primary := fl_primary fl; fl_more := fl_more fl |} ts2
         | _ => Err
         end
-    | TKw KModule => '(fl', ts2) <- parse_module f fl ts1 ;; file_loop f fl' ts2
+    | TKw KModule => '(fl', ts2) <- parse_module fuel fl ts1 ;; file_loop f fl' ts2
     | _ => Err
     end
   end.
